@@ -559,7 +559,22 @@ for _up in (True, False):
                      "... and a reduced offset determines its bin; with post.cyclic_bracket / cyclic_successor_never_clipped (and the periodic "
                      "weights' post.fraction) such targets therefore get identical indices and weights")]
 CONTRACTS = [wrapped_difference, enclosing_periodic, weights_periodic, interpolate_periodic, ndp_linear, ndp_nearest]
+import contracts.C14_bounded as _B
+BOUNDED = [Bounded("angular_data_unit_vector_average", _B.angular_data,
+                   "NdInterpolator._periodic_data_interpolator through interpolate_dataset_along_axis (complex exponentials are outside the executor's subset)"),
+           Bounded("periodic_axis_end_to_end", _B.periodic_axis, "default periodic coordinates of dataset.py; the proved kernels composed on real xarray data"),
+           Bounded("dataframe_time", _B.dataframe_time, "column rule of interpolate_dataframe_time"),
+           Bounded("track_time", _B.track_time, "Track.interpolate: longitude periodic, latitude plain, end positions"),
+           Bounded("gridded_at_track_points", _B.gridded_at_points, "interpolate_at_points / interpolate_track_data_arrray across the antimeridian")]
 TRUSTED = ["infinite values are outside the model: every non-NaN float of these contracts is finite (contract option finite_reals)",
            "possibly-NaN floats are pairs (real, flag) with IEEE propagation through + - * / % and comparisons (pyvc.terms.XR)",
-           "boolean-mask selection/assignment x[m] = f(y[m]) acts cell by cell on the cells where m holds (masks proved identical)"]
-EXPLANATION = ""
+           "boolean-mask selection/assignment x[m] = f(y[m]) acts cell by cell on the cells where m holds (masks proved identical)",
+           "x % p for floats is x - p*floor(x/p) over the reals (a float result equal to p, e.g. (-1e-20) % 360, is outside the model)",
+           "period fixed to 360 in the periodic instances (the only period the repository uses); symbolic periods make the modulo nonlinear",
+           "preconditions taken from the code: periodic grid strictly monotone within one period; for the periodic weights every cyclic bin shorter than half a period",
+           "interpolate_periodic: x not periodic (the only way the repository calls it), xp strictly increasing (time axes)",
+           "NdInterpolator._periodic_data_interpolator (complex exponentials), dataset.py / dataframe.py / geometry.py / dataarray.py wiring: bounded only"]
+EXPLANATION = ("proved for all lengths and values: wrapped_difference (range [D-P,D), congruence, fixed points, NaN), enclosing_points_1d with a period (cyclic successor never "
+               "clipped, reduced target in its cyclic bin incl. the wrap bin, uniqueness), periodic interpolation_weights_1d (fraction of the cyclic bin, in [0,1)), "
+               "interpolate_periodic as the repository calls it (shorter arc, range, nodes, ends), NdInterpolator.interpolate along a periodic coordinate by composition "
+               "of the verified contracts; spec lemmas: targets a multiple of 360 apart have the same reduced offset and the same bin, hence identical indices, weights, results")
